@@ -299,7 +299,7 @@ def run(ctx) -> None:
                 "file reads, all writer protocol steps); bounded-preemption enumeration + random; distinct = executed schedule")
     ctx.trusted_base += ["harness/lib/sched.py, protocol.py (per-flip table content recorded by an independent reader)"]
     ctx.assumptions += ["no garbage collection concurrent with readers (C05/C06)"]
-    ctx.proofs(THEOREMS)
+    ctx.proofs(THEOREMS, gen_files=["GenCommit.v"])
     ctx.allow_axioms([])
     quick = ctx.tier == "quick"
     total = 0
